@@ -32,9 +32,27 @@ func (x Expr) Append(buf []byte, brackets ...bool) []byte {
 			bracket = true
 			continue
 		}
+		if _, ok := frag.(Descent); ok && !bracket {
+			// A descent is two dots. The second dot is written by the next
+			// fragment if that is a name or wildcard and here otherwise.
+			buf = append(buf, '.')
+			dot := true
+			if i+1 < len(x) {
+				switch tn := x[i+1].(type) {
+				case Child:
+					dot = !tn.tokenOk()
+				case Wildcard:
+					dot = tn == '#'
+				}
+			}
+			if dot {
+				buf = append(buf, '.')
+			}
+			continue
+		}
 		buf = frag.Append(buf, bracket, i == 0)
 	}
-	if 0 < len(x) {
+	if bracket && 0 < len(x) {
 		if _, ok := x[len(x)-1].(Descent); ok {
 			buf = append(buf, '.')
 		}
